@@ -3,14 +3,14 @@ CONSTANTS
   LegacyBreak = FALSE
   SwapIn = ""
   NoShadow = FALSE
-  ShallowSub = FALSE
+  ShallowSub = TRUE
   IgnoreNs = FALSE
   ModSharedPath = FALSE
   MaxMod = 0
   NodeU <- NodeU4
   MaxAssoc = 2
-  CreateNs = {1, 2}
-  ClsU = {"AB", "ABS", "ABSS", "AT", "AL"}
+  CreateNs = {1}
+  ClsU = {"AB", "ABSS", "AT", "AL"}
   AcU <- AcSmall
   RcU <- RcSmall
   RlU <- RlSmall
